@@ -3,7 +3,7 @@
    semantics, and the comparison with what rsass printed.
    Depends on Model and Spec only. *)
 From Coq Require Import String List NArith ZArith Bool.
-From RV Require Import Base.Text Base.ListX Model.CssStr Model.ValueLite Model.OrderMap Spec.MapSpec.
+From RV Require Import Base.Text Base.ListX Model.CssStr Model.ValueLite Model.OrderMap Model.ListFns Spec.MapSpec.
 Import ListNotations.
 Local Open Scope list_scope.
 
@@ -70,7 +70,9 @@ Inductive mop : Type :=
 | OMerge (m2 : list (nat * nat))           (* map.merge($m, <literal>) *)
 | OKeys
 | OValues
-| OEq (m2 : list (nat * nat)).             (* $m == <literal> *)
+| OEq (m2 : list (nat * nat))              (* $m == <literal> *)
+| OEqRev (m2 : list (nat * nat))           (* <literal> == $m *)
+| OIndex (ls : list (list (nat * nat))).   (* list.index((<literal>, ...), $m) *)
 
 Record case := mkCase {
   c_init : list (nat * nat);
@@ -79,6 +81,16 @@ Record case := mkCase {
 
 (* ---- the model (mirrors rsass) ---- *)
 Definition state_map (st : value) : vmap := match as_map st with Some m => m | None => [] end.
+
+Fixpoint eval_literals (ls : list (list (nat * nat))) : option (list value) :=
+  match ls with
+  | [] => Some []
+  | l :: r =>
+      match eval_literal (lit l), eval_literals r with
+      | Some v, Some vs => Some (v :: vs)
+      | _, _ => None
+      end
+  end.
 
 (* one step: new state and the text printed *)
 Definition step_model (st : value) (o : mop) : option (value * list N) :=
@@ -102,6 +114,16 @@ Definition step_model (st : value) (o : mop) : option (value * list N) :=
   | OEq l =>
       match eval_literal (lit l) with
       | Some v2 => Some (st, inspect (VBool (veq st v2)))
+      | None => None
+      end
+  | OEqRev l =>
+      match eval_literal (lit l) with
+      | Some v2 => Some (st, inspect (VBool (veq v2 st)))
+      | None => None
+      end
+  | OIndex ls =>
+      match eval_literals ls with
+      | Some vs => Some (st, inspect (v_of_pos (position vs st O)))
       | None => None
       end
   end.
@@ -164,6 +186,22 @@ Definition show_map (m : vmap) : list N := inspect (VMap m).
 (* order-insensitive equality of map states *)
 Definition spec_map_eq (a b : vmap) : bool := sp_eq veq veq a b.
 
+Fixpoint spec_literals (ls : list (list (nat * nat))) : option (list vmap) :=
+  match ls with
+  | [] => Some []
+  | l :: r =>
+      match spec_literal (lit l), spec_literals r with
+      | Some v, Some vs => Some (v :: vs)
+      | _, _ => None
+      end
+  end.
+(* list.index: 1-based position of the first element equal to the map *)
+Fixpoint spec_first_eq (ms : list vmap) (m : vmap) (i : Z) : option Z :=
+  match ms with
+  | [] => None
+  | x :: r => if spec_map_eq x m then Some i else spec_first_eq r m (i + 1)%Z
+  end.
+
 Definition step_spec (m : vmap) (o : mop) : option (vmap * list N) :=
   match o with
   | OGet k => Some (m, inspect (match sget m (kp k) with Some v => v | None => VNull end))
@@ -182,10 +220,21 @@ Definition step_spec (m : vmap) (o : mop) : option (vmap * list N) :=
       | Some m2 => Some (m, inspect (VBool (spec_map_eq m m2)))
       | None => None
       end
+  | OEqRev l =>
+      match spec_literal (lit l) with
+      | Some m2 => Some (m, inspect (VBool (spec_map_eq m2 m)))
+      | None => None
+      end
+  | OIndex ls =>
+      match spec_literals ls with
+      | Some ms =>
+          Some (m, inspect (match spec_first_eq ms m 1 with Some i => v_int i | None => VNull end))
+      | None => None
+      end
   end.
 
 (* the spec trace, with the OEq answers separated out (clause "equality ignores order") *)
-Definition is_eq_op (o : mop) : bool := match o with OEq _ => true | _ => false end.
+Definition is_eq_op (o : mop) : bool := match o with OEq _ | OEqRev _ | OIndex _ => true | _ => false end.
 
 Fixpoint steps_spec (m : vmap) (ops : list mop) : option (list (bool * list N)) :=
   match ops with
